@@ -152,7 +152,10 @@ def _state(ck: Checker) -> None:
             from ..an import value_alts
 
             ialts = [norm(a) for a in value_alts(g, x, t.elts[2], depth=2) if not isinstance(a, ast.Name)] if len(t.elts) >= 3 else []
-            ok = oid is not None and oid.endswith(".new.oid") and bool(ialts) and all(a in (f"_localfs_info({p})", f"fs.info({p})") for a in ialts)
+            palts = {norm(a) for a in value_alts(g, x, t.elts[0], depth=2)} if len(t.elts) >= 3 else set()
+            oalts = [norm(a) for a in value_alts(g, x, t.elts[1], depth=2)] if len(t.elts) >= 3 else []
+            stat_ok = bool(ialts) and all(any(a in (f"_localfs_info({q})", f"fs.info({q})") for q in palts) for a in ialts)
+            ok = any(o.endswith(".new.oid") for o in oalts) and all(o.endswith(".new.oid") for o in oalts if not o.isidentifier()) and stat_ok
             ck.require(ok, "C10.state", co, x, "row is (path, change.new.oid, fresh stat of that path)", f"state row {norm(t)} does not pair the path with the target hash and that path's own stat ({ialts})")
             # only on the success (try-else) branch: not reachable from the CheckoutError handler
             hs = [h for h in g.nodes.values() if h.kind == "handler" and x.loops and x.loops[-1] in h.loops]
